@@ -48,30 +48,30 @@ var (
 // nextUpdate, which are exactly the ones we need)
 
 type EntrySpec struct {
-	Serial   *big.Int
-	Reason   int  // -1: no reason code extension (reason 0)
-	RevTime  time.Time
-	InvDate  *time.Time
-	InvBad   string // "", "malformed", "trailing"
-	CritUnknown bool // unknown critical entry extension
+	Serial         *big.Int
+	Reason         int // -1: no reason code extension (reason 0)
+	RevTime        time.Time
+	InvDate        *time.Time
+	InvBad         string // "", "malformed", "trailing"
+	CritUnknown    bool   // unknown critical entry extension
 	NonCritUnknown bool
 	ReasonCritical bool
 }
 
 type CRLSpec struct {
-	Number      *big.Int // nil: no CRL number extension
-	ThisUpdate  time.Time
-	NextUpdate  time.Time // zero: absent
-	Entries     []EntrySpec
-	CritUnknown bool // unknown critical list extension
+	Number         *big.Int // nil: no CRL number extension
+	ThisUpdate     time.Time
+	NextUpdate     time.Time // zero: absent
+	Entries        []EntrySpec
+	CritUnknown    bool // unknown critical list extension
 	NonCritUnknown bool
-	IDPCritical bool // add a critical issuingDistributionPoint extension (benign)
-	Indicator   *big.Int // delta CRL indicator (critical, as RFC 5280 requires)
-	IndicatorBad bool    // indicator extension whose value is not an INTEGER
-	Freshest    []string // freshest-CRL URLs advertised by this (base) CRL
-	FreshestRaw []byte   // raw freshest-CRL extension value (overrides Freshest)
-	Signer      *Issued  // who signs (default: the issuer passed to buildCRL)
-	CorruptSig  bool
+	IDPCritical    bool     // add a critical issuingDistributionPoint extension (benign)
+	Indicator      *big.Int // delta CRL indicator (critical, as RFC 5280 requires)
+	IndicatorBad   bool     // indicator extension whose value is not an INTEGER
+	Freshest       []string // freshest-CRL URLs advertised by this (base) CRL
+	FreshestRaw    []byte   // raw freshest-CRL extension value (overrides Freshest)
+	Signer         *Issued  // who signs (default: the issuer passed to buildCRL)
+	CorruptSig     bool
 }
 
 func signDigestInfo(priv crypto.Signer, tbs []byte) (pkix.AlgorithmIdentifier, []byte, error) {
@@ -256,11 +256,11 @@ type fetchBehaviour struct {
 }
 
 type scriptedFetcher struct {
-	mu  sync.Mutex
-	m   map[string]*fetchBehaviour
-	log []string
+	mu      sync.Mutex
+	m       map[string]*fetchBehaviour
+	log     []string
 	onFirst func() // called when the first fetch arrives (used to cancel mid-flight)
-	calls int
+	calls   int
 }
 
 func (f *scriptedFetcher) Fetch(ctx context.Context, u string) (*corecrl.Bundle, error) {
@@ -311,9 +311,9 @@ func absFetch(b *fetchBehaviour, issuer *x509.Certificate) map[string]any {
 type httpBehaviour struct {
 	status  int
 	body    []byte
-	err     error         // transport error
-	timeout bool          // transport error that reports Timeout()
-	waitCtx bool          // block until the request context is done, then return its error
+	err     error // transport error
+	timeout bool  // transport error that reports Timeout()
+	waitCtx bool  // block until the request context is done, then return its error
 	panicV  any
 	gate    chan struct{} // barrier: wait until closed
 	handler func(req *http.Request) (*http.Response, error)
@@ -327,9 +327,9 @@ type reqLog struct {
 }
 
 type scriptedTransport struct {
-	mu  sync.Mutex
-	m   map[string]*httpBehaviour // key: server URL as configured in the certificate
-	log []reqLog
+	mu     sync.Mutex
+	m      map[string]*httpBehaviour // key: server URL as configured in the certificate
+	log    []reqLog
 	arrive func(key string) // called when a request arrives (before gates)
 }
 
@@ -420,20 +420,20 @@ func (t *scriptedTransport) RoundTrip(req *http.Request) (*http.Response, error)
 // OCSP responses
 
 type OCSPSpec struct {
-	Status     int // ocsp.Good / Revoked / Unknown
-	Serial     *big.Int
-	ThisUpdate time.Time
-	NextUpdate time.Time // zero: absent
-	InvDate    *time.Time
-	InvBad     string // "", "malformed", "trailing"
-	CritExt    bool   // critical single extension
-	NoCheck    bool   // add pkix-ocsp-nocheck single extension (ignored by the code)
-	Signer     *Issued // key that signs
-	Embed      *x509.Certificate // embedded responder certificate (nil: none)
+	Status        int // ocsp.Good / Revoked / Unknown
+	Serial        *big.Int
+	ThisUpdate    time.Time
+	NextUpdate    time.Time // zero: absent
+	InvDate       *time.Time
+	InvBad        string            // "", "malformed", "trailing"
+	CritExt       bool              // critical single extension
+	NoCheck       bool              // add pkix-ocsp-nocheck single extension (ignored by the code)
+	Signer        *Issued           // key that signs
+	Embed         *x509.Certificate // embedded responder certificate (nil: none)
 	ResponderIDOf *x509.Certificate // certificate whose subject is put into the ResponderID (default: the signer's)
-	CorruptSig bool
-	RevokedAt  *time.Time // revocation time of a Revoked answer (default: an hour before thisUpdate)
-	Reason     int        // revocation reason of a Revoked answer (0: keyCompromise, the default; -1: unspecified(0))
+	CorruptSig    bool
+	RevokedAt     *time.Time // revocation time of a Revoked answer (default: an hour before thisUpdate)
+	Reason        int        // revocation reason of a Revoked answer (0: keyCompromise, the default; -1: unspecified(0))
 }
 
 func buildOCSP(issuer *Issued, spec OCSPSpec) []byte {
